@@ -42,6 +42,8 @@ pub enum Route {
     ConvSource,
     /// an inherent constructor outside KeyInit (index into `special_ctors()`)
     Special(usize),
+    /// built from another key, then re-keyed in place with `clone_from`
+    CloneFrom,
 }
 
 impl Route {
@@ -55,10 +57,11 @@ impl Route {
             Route::CloneOfConv => "clone_of_converted",
             Route::ConvSource => "source_of_from_ref",
             Route::Special(i) => special_ctors()[*i].1,
+            Route::CloneFrom => "clone_from",
         }
     }
     pub fn parse(s: &str) -> Option<Route> {
-        [Route::New, Route::NewFromSlice, Route::Clone, Route::ConvRef, Route::ConvVal, Route::CloneOfConv, Route::ConvSource]
+        [Route::New, Route::NewFromSlice, Route::Clone, Route::ConvRef, Route::ConvVal, Route::CloneOfConv, Route::ConvSource, Route::CloneFrom]
             .into_iter()
             .find(|r| r.name() == s)
             .or_else(|| special_ctors().iter().position(|c| c.1 == s).map(Route::Special))
@@ -357,6 +360,14 @@ impl<'a> Engine<'a> {
                 ops.push(Op::Conv { id: 2, task: 0, src: 1, to: Role::Both, by_ref: true });
                 target = 1;
             }
+            Route::CloneFrom => {
+                // target first holds another key of the same length, then takes c.key over from a second instance
+                let other: Vec<u8> = c.key.iter().map(|b| b ^ 0xA7).collect();
+                ops.push(Op::New { id: 1, task: 0, fam: f, role: target_role, key: other, fixed: false });
+                ops.push(Op::New { id: 2, task: 0, fam: f, role: target_role, key: c.key.clone(), fixed: false });
+                ops.push(Op::CloneFrom { id: 1, task: 0, src: 2 });
+                source = Some(2);
+            }
             Route::Special(_) => {
                 // a World instance provides the slot; it is keyed with a fixed key of the family's nominal
                 // length (special constructors may accept lengths KeyInit rejects), dropped in place and
@@ -473,6 +484,9 @@ fn routes_for(reg: &Registry, t: &TypeInfo) -> Vec<Route> {
     let mut r = vec![Route::NewFromSlice, Route::New];
     if t.clone.is_some() {
         r.push(Route::Clone);
+    }
+    if t.clone_from.is_some() {
+        r.push(Route::CloneFrom);
     }
     if fam.split && t.role != Role::Enc {
         r.extend([Route::ConvRef, Route::ConvVal, Route::CloneOfConv]);
